@@ -119,7 +119,7 @@ def run(tier: str, seed: int) -> int:
     r = rng_for(PROP, seed)
     failures, diffs = [], []
     stats = {}
-    n = 70 if tier == "quick" else 5000
+    n = 70 if tier == "quick" else 1500
     steps = 2500 if tier == "quick" else 10000
     for i in range(n):
         src, merged, desc = gen_split(r)
